@@ -3,8 +3,15 @@ package queue
 // VH_queue_Step: white-box step from an arbitrary ring state (capacity c, head h, n elements).
 func VH_queue_Step() {
 	c := vCase("c")
-	h := vChoice("head", c+1)
-	n := vChoice("n", c+1)
+	var h, n int
+	if c >= 64 {
+		// large buffers: a few characteristic ring positions instead of all of them
+		h = []int{0, 1, c / 2, 3*c/4 + 2, c - 1}[vChoice("head", 5)]
+		n = []int{0, 1, c/4 - 1, c / 4, c/4 + 1, c / 2, c - 1, c}[vChoice("n", 8)]
+	} else {
+		h = vChoice("head", c+1)
+		n = vChoice("n", c+1)
+	}
 	if c == 0 {
 		h = 0
 	} else if h >= c {
@@ -35,11 +42,29 @@ func VH_queue_Step() {
 	ref = vApply(q, ref, op, "step")
 	vCover("stepped")
 	vObserve(q, ref, "after step")
-	vPeekCheck(q, ref, c+3, "after step")
+	if c < 64 {
+		vPeekCheck(q, ref, c+3, "after step")
+	} else if len(ref) > 0 {
+		// large buffers: Peek at a few characteristic offsets instead of a symbolic one
+		for _, k := range []int{0, 1, len(ref) / 2, len(ref) - 1, -1, -len(ref)} {
+			if k < len(ref) && k >= -len(ref) {
+				got, ok := q.Peek(k)
+				j := k
+				if j < 0 {
+					j += len(ref)
+				}
+				vAssert(ok && got == ref[j], "after step: Peek at a characteristic offset of a large queue")
+			}
+		}
+	}
 	// internal consistency that later steps rely on
 	vAssert(q.n <= len(q.vs), "representation: n <= len(buffer)")
 	vAssert(q.head >= 0 && (q.head < len(q.vs) || len(q.vs) == 0), "representation: head within buffer")
 	vAssert(q.n > 0 || q.head == 0, "representation: empty queue has head 0")
+	if c >= 64 {
+		vCover("large-buffer")
+		return
+	}
 	// one more operation from the resulting state
 	op2 := vChoice("op2", 4)
 	ref = vApply(q, ref, op2, "second step")
